@@ -103,6 +103,14 @@ Theorem C07_fix_sign_spec : forall N rows k v',
 Proof. exact fix_sign_spec. Qed.
 Print Assumptions C07_fix_sign_spec.
 
+(* the peak index p used for odd rows is np.argmax(np.abs(.)): the FIRST index of the largest magnitude *)
+Theorem C07_argmax_abs_spec : forall l,
+  l <> [] ->
+  (argmax_abs l < length l)%nat /\
+  (forall i, (i < length l)%nat -> Qabsq (get l i) <= Qabsq (get l (argmax_abs l))) /\
+  (forall i, (i < argmax_abs l)%nat -> Qabsq (get l i) < Qabsq (get l (argmax_abs l))).
+Proof. exact argmax_abs_spec. Qed.
+
 (* REFUTED (strict form of the convention): the code cannot flip an odd-order row whose largest
    first-half magnitude sits at index 0 — p = 0, the tested sum is over an empty slice — so a row
    whose whole first half is negative is returned unchanged.  Latent on the implementation: reached
@@ -173,7 +181,7 @@ Theorem C07_setup_centrosymmetric : forall N c k,
   ((S k < N)%nat -> offdiag_entry N k == offdiag_entry N (N - 2 - k)).
 Proof. exact setup_centrosymmetric. Qed.
 
-(* PARTIAL: the pipeline after the inverse iterations.  Hypothesis (NOT proved: numerical
+(* PARTIAL: the pipeline after the inverse iterations.  Assumed (NOT proved: numerical
    convergence): row k delivered by the inverse iteration is a unit eigenvector of the sinc kernel
    for lam.  Conclusion: so is the returned row, the returned concentration is lam, and the sign
    convention holds in its non-strict form. *)
@@ -254,3 +262,30 @@ Qed.
 
 Example C07_ex_rescale : 5 * 5 == sumsq [3; 4] /\ ~ 5 == 0 /\ rescale [3; 4] 5 = [3 / 5; 4 / 5].
 Proof. split; [reflexivity|]. split; [discriminate|reflexivity]. Qed.
+
+(* the hypotheses of C07_dpss_partial are met by a row that needs the flip (S = identity, lam = 1) *)
+Definition ex_rows : list (list Q) := [[-3 # 5; -4 # 5]].
+Example C07_ex_dpss_partial_hypotheses :
+  ex_sinc 0%nat == 1 /\
+  nth_error (fix_signs 2 ex_rows) 0 = Some [3 # 5; 4 # 5] /\
+  (forall v, nth_error ex_rows 0 = Some v ->
+     (forall i, (i < 2)%nat -> matvec (sinc_kernel (1 # 2) ex_sinc) (get v) 2 i == 1 * get v i) /\
+     sumn (fun i => get v i * get v i) 2 == 1).
+Proof.
+  split; [reflexivity|]. split; [vm_compute; reflexivity|].
+  intros v Hv. injection Hv as <-. split; [|reflexivity].
+  intros [|[|i]] H; [reflexivity|reflexivity|lia].
+Qed.
+
+(* the shifted system of one inverse-iteration pass: pivots of (ex_d - 1/2, ex_e) are non-zero *)
+Lemma ex_spiv0 : ~ pivot (shift ex_d (1 # 2)) ex_e 0 == 0. Proof. vm_compute. discriminate. Qed.
+Lemma ex_spiv1 : ~ pivot (shift ex_d (1 # 2)) ex_e 1 == 0. Proof. vm_compute. discriminate. Qed.
+Lemma ex_spiv2 : ~ pivot (shift ex_d (1 # 2)) ex_e 2 == 0. Proof. vm_compute. discriminate. Qed.
+Lemma ex_spiv3 : ~ pivot (shift ex_d (1 # 2)) ex_e 3 == 0. Proof. vm_compute. discriminate. Qed.
+Example C07_ex_inverse_iteration_hypotheses :
+  length ex_d = length ex_b /\ (length ex_b - 1 <= length ex_e)%nat /\
+  (forall k, (k < length ex_b)%nat -> ~ pivot (shift ex_d (1 # 2)) ex_e k == 0).
+Proof.
+  split; [reflexivity|]. split; [simpl; lia|].
+  intros [|[|[|[|k]]]] H; [exact ex_spiv0|exact ex_spiv1|exact ex_spiv2|exact ex_spiv3|simpl in H; lia].
+Qed.
